@@ -214,18 +214,21 @@ var prop = vh.Define("C04", "wellformed", func(c Case, r *vh.R) {
 	}
 })
 
-func TestPropWellFormed(t *testing.T) {
-	prop.Rapid(t, func(t *rapid.T) Case {
-		s := bundlekit.GenWide(t)
-		c := Case{Spec: *s, Sink: rapid.SampledFrom([]string{"buffer", "plain", "readerfrom", "counting-prewritten", "counting-prewritten-rf"}).Draw(t, "sink")}
-		if rapid.IntRange(0, 4).Draw(t, "align") == 0 {
-			target := rapid.SampledFrom([]string{"responses", "responses", "index+responses", "file"}).Draw(t, "aligntarget")
-			mod := rapid.SampledFrom([]int{512, 4096, 32768, 32768, 65536}).Draw(t, "alignmod")
-			off := rapid.SampledFrom([]int{0, 0, 0, -1, 1}).Draw(t, "alignoff")
-			bundlekit.AlignTo(&c.Spec, target, mod, off)
-		}
-		return c
-	})
+func TestPropWellFormed(t *testing.T) { prop.Rapid(t, genPropWellFormed) }
+
+// TestConcWellFormed: batches of cases evaluated at the same time on separate goroutines (vh.Prop.Concurrent).
+func TestConcWellFormed(t *testing.T) { prop.Concurrent(t, genPropWellFormed, 8, 3) }
+
+func genPropWellFormed(t *rapid.T) Case {
+	s := bundlekit.GenWide(t)
+	c := Case{Spec: *s, Sink: rapid.SampledFrom([]string{"buffer", "plain", "readerfrom", "counting-prewritten", "counting-prewritten-rf"}).Draw(t, "sink")}
+	if rapid.IntRange(0, 4).Draw(t, "align") == 0 {
+		target := rapid.SampledFrom([]string{"responses", "responses", "index+responses", "file"}).Draw(t, "aligntarget")
+		mod := rapid.SampledFrom([]int{512, 4096, 32768, 32768, 65536}).Draw(t, "alignmod")
+		off := rapid.SampledFrom([]int{0, 0, 0, -1, 1}).Draw(t, "alignoff")
+		bundlekit.AlignTo(&c.Spec, target, mod, off)
+	}
+	return c
 }
 
 // TestAligned: the same calibration on fixed small bundles, for every target x modulus x {-1,0,+1}
@@ -453,25 +456,28 @@ var cwProp = vh.Define("C04", "countingwriter", func(c CWCase, r *vh.R) {
 	}
 })
 
-func TestPropCountingWriter(t *testing.T) {
-	cwProp.Rapid(t, func(t *rapid.T) CWCase {
-		c := CWCase{SinkRF: rapid.Bool().Draw(t, "rf"), Mode: rapid.SampledFrom([]string{"reject", "short"}).Draw(t, "mode")}
-		n := rapid.IntRange(1, 5).Draw(t, "nops")
-		total := 0
-		for i := 0; i < n; i++ {
-			op := Op{Kind: rapid.SampledFrom([]string{"write", "readfrom", "copy-plain", "copy-writerto"}).Draw(t, "kind"),
-				Len: rapid.SampledFrom([]int{0, 1, 11, 100, 32*1024 - 1, 32 * 1024, 32*1024 + 1, 70000}).Draw(t, "len"), Chunk: rapid.SampledFrom([]int{0, 1, 5, 4096}).Draw(t, "chunk")}
-			if op.Len > 1000 && op.Chunk == 1 {
-				op.Chunk = 4096
-			}
-			total += op.Len
-			c.Ops = append(c.Ops, op)
+func TestPropCountingWriter(t *testing.T) { cwProp.Rapid(t, genPropCountingWriter) }
+
+// TestConcCountingWriter: batches of cases evaluated at the same time on separate goroutines (vh.Prop.Concurrent).
+func TestConcCountingWriter(t *testing.T) { cwProp.Concurrent(t, genPropCountingWriter, 8, 3) }
+
+func genPropCountingWriter(t *rapid.T) CWCase {
+	c := CWCase{SinkRF: rapid.Bool().Draw(t, "rf"), Mode: rapid.SampledFrom([]string{"reject", "short"}).Draw(t, "mode")}
+	n := rapid.IntRange(1, 5).Draw(t, "nops")
+	total := 0
+	for i := 0; i < n; i++ {
+		op := Op{Kind: rapid.SampledFrom([]string{"write", "readfrom", "copy-plain", "copy-writerto"}).Draw(t, "kind"),
+			Len: rapid.SampledFrom([]int{0, 1, 11, 100, 32*1024 - 1, 32 * 1024, 32*1024 + 1, 70000}).Draw(t, "len"), Chunk: rapid.SampledFrom([]int{0, 1, 5, 4096}).Draw(t, "chunk")}
+		if op.Len > 1000 && op.Chunk == 1 {
+			op.Chunk = 4096
 		}
-		if rapid.IntRange(0, 2).Draw(t, "unbounded") == 0 {
-			c.Cap = total + 10
-		} else {
-			c.Cap = rapid.IntRange(0, total+1).Draw(t, "cap")
-		}
-		return c
-	})
+		total += op.Len
+		c.Ops = append(c.Ops, op)
+	}
+	if rapid.IntRange(0, 2).Draw(t, "unbounded") == 0 {
+		c.Cap = total + 10
+	} else {
+		c.Cap = rapid.IntRange(0, total+1).Draw(t, "cap")
+	}
+	return c
 }
